@@ -8,7 +8,17 @@ Correspondence streams (real batched code vs the model's executable definitions 
   ops    : Adj, AdjT, Retr, `+` / add / add_ / pp.add / pp.add_ (LieTensor and plain-tensor operands, extra
            trailing components, alpha), algebra `+`, Jinvp, so3.Jr / SO3.Jr on the four groups, broadcastable
            batch shapes incl. enlarged and empty ones, float32/float64; every item compared block-wise.
+Deterministic streams that run FIRST and identically for every seed
+  persistent / history : one group object, one algebra operand and one plain-tensor operand live through a fixed history in which
+           every per-call argument changes and all three are updated in place between calls; each read must equal the same read
+           on fresh clones bit for bit, leave its operands untouched and add no attributes to the objects or their ltype;
+  views  : operands as strided / windowed / transposed / expanded views of larger buffers, in-place updates through a view (storage
+           outside the view untouched), one storage passed as both arguments — reference: contiguous clones, bit for bit;
+  corpus : fixed corner elements (eps-neighbourhoods, sqrt(eps), both hemispheres, pi, |w|~0, scales e^±40, translations 1e6) x fixed
+           tangent vectors (zero .. angle 100, |tau| 1e6, sigma ±20) in ONE mixed-regime batched call per op: item-wise against the
+           model, against the call on each item alone, the laws, and the exact adjoint / Jinvp / Jr oracles.
 Oracles on the real code (the property's own statements)
+  adj    : Adj / AdjT against the definition vee(M a^ M^-1) with M = matrix(X) of the real code, conjugation in 50 digits;
   laws   : X@Exp(a) = Exp(Adj(X,a))@X ; Exp(a)@X = X@Exp(AdjT(X,a)) ; Retr(X,a) = X+a = add = add_ = Exp(a)@X
            (extra components ignored, alpha, purity, in-place semantics, repeatability of a second call) ;
            algebra + is vector addition ;
@@ -33,7 +43,9 @@ META = {
             "|v|~eps; translations 0..1e3; log-scales 0, ±eps-neighbourhood .. ±8; whole tangent vectors additionally scaled by "
             "1e-9/1e-17/1e-30 or zeroed), blocks varied independently; random broadcastable batch-shape pairs (rank<=2, extents "
             "0..3, incl. pairs that enlarge X), float32/float64, operands as LieTensor or plain Tensor, `other` with 0..2 "
-            "extra trailing components, alpha in {1,-1,2,0.5,0}; non-trivial = X not the identity or a != 0; distinct by "
+            "extra trailing components, alpha in {1,-1,2,0.5,0}; 5% extreme-but-valid rows (scale e^±40, |t| 1e6, angle 100, sigma ±20); "
+            "before the random part a deterministic part (history of long-lived objects, views/aliases, corner corpus with mixed-regime "
+            "batches) runs identically for every seed; non-trivial = X not the identity or a != 0; distinct by "
             "(op, api, type, dtype, regime tags, shapes)",
     "trusted": ["floating-point round-off is measured against the property's tolerances, not proved",
                 "mpmath (30 digits) matrix exponential / linear solve used as the truth of the Jinvp and Jr oracles"],
@@ -1368,7 +1380,12 @@ def run_views(ctx: Ctx):
                         avv = av if av is not None else abuf
                         xb0, ab0 = xbuf.clone(), abuf.clone()
                         for k2, f in ops.items():
-                            z = f(Xv, avv).tensor()
+                            try:
+                                z = f(Xv, avv).tensor()
+                            except Exception as ex:
+                                ctx.fail(case | {"X_view": xk, "a_view": ak, "op": k2},
+                                         f"views: {k2} with X as a {xk} view and a as a {ak} view raised {type(ex).__name__}: {str(ex)[:120]} ({name}, {dtype})")
+                                continue
                             ctx.note_case(("views", name, dtype, xk, ak, k2), True)
                             ctx.count(f"views.{xk}|{ak}")
                             if z.shape != wantx[k2].shape or not torch.equal(torch.nan_to_num(z, nan=1.2345), torch.nan_to_num(wantx[k2], nan=1.2345)):
@@ -1392,7 +1409,12 @@ def run_views(ctx: Ctx):
                             else:
                                 expect = exp_view.transpose(0, 1).contiguous()
                             a0 = abuf.clone()
-                            r = Xv.add_(av) if api == "add_" else (P.add_(Xv, av) if api == "pp.add_" else Xv.add_(av, alpha=al))
+                            try:
+                                r = Xv.add_(av) if api == "add_" else (P.add_(Xv, av) if api == "pp.add_" else Xv.add_(av, alpha=al))
+                            except Exception as ex:
+                                ctx.fail(case | {"X_view": xk, "a_view": ak, "api": api},
+                                         f"views-inplace: {api} through a {xk} view of a larger buffer raised {type(ex).__name__}: {str(ex)[:120]} ({name}, {dtype})")
+                                continue
                             if not isinstance(r, P.LieTensor) or r.ltype != Xv.ltype:
                                 ctx.fail(case | {"X_view": xk, "api": api}, f"views-inplace: {api} on a {xk} view returned {type(r).__name__}, not the "
                                                                              f"LieTensor it was called on ({name})")
